@@ -11,7 +11,9 @@ type VarGenerator struct {
 }
 
 func NewVarGenerator() VarGenerator {
-	vs := []string{"x", "y", "z", "p", "q", "r", "s", "t", "u", "v", "w", "b", "c", "d", "e", "f", "g", "h", "i", "j", "k", "l", "m", "n", "o"}
+	// no "n": the code generated for nested constraints binds a helper variable of that name in the scope
+	// where the quantified variables live (a quantified `n` captured it and the inner nodes were not checked)
+	vs := []string{"x", "y", "z", "p", "q", "r", "s", "t", "u", "v", "w", "b", "c", "d", "e", "f", "g", "h", "i", "j", "k", "l", "m", "o"}
 	return VarGenerator{
 		vars:    vs,
 		counter: 0,
